@@ -88,7 +88,14 @@ def body(S, t, part):
             bit = 1 if S.bool("state%d" % i) else 0
             logical = S.bool("logical%d" % i) if part.get("sym_logical") else True
             n_rep += 1
-            m.switch_controller.process_switch_obj(sw, bit, logical)
+            # the three entry points a report can come through (platform by number, by name, by object) must agree
+            via = S.choice("via%d" % i, 3) if part.get("sym_entry") else 2
+            if via == 0:
+                m.switch_controller.process_switch_by_num(sw.hw_switch.number, bit, sw.platform, logical)
+            elif via == 1:
+                m.switch_controller.process_switch(sw.name, bit, logical)
+            else:
+                m.switch_controller.process_switch_obj(sw, bit, logical)
             new = bit if logical else bit ^ invert
             if new != state:
                 state = new
@@ -170,9 +177,10 @@ def body_window(S, t, part):
     name = part["switch"]
     sw = m.switches[name]
     got = {"a": [], "i": []}
-    if name == "s_win":
-        m.events.add_handler("ev_win_active", lambda **kwargs: got["a"].append(t.loop.time()))
-        m.events.add_handler("ev_win_inactive", lambda **kwargs: got["i"].append(t.loop.time()))
+    if name in ("s_win", "s_win_nc"):
+        stem = "ev_win" if name == "s_win" else "ev_winnc"
+        m.events.add_handler(stem + "_active", lambda **kwargs: got["a"].append(t.loop.time()))
+        m.events.add_handler(stem + "_inactive", lambda **kwargs: got["i"].append(t.loop.time()))
     else:
         m.events.add_handler("ev_t_active", lambda **kwargs: got["a"].append(t.loop.time()))
         m.events.add_handler("ev_t_inactive", lambda **kwargs: got["i"].append(t.loop.time()))
@@ -276,11 +284,14 @@ def scenarios(tier):
         parts.append(dict(switch="s_no", seq="ABCR", same_state=True, remover="B", victims=["A", "C"]))
         parts.append(dict(switch="s_nc", seq="RRR", sym_logical=True))
         parts.append(dict(switch="s_no", seq="RRR", sym_logical=True))
+        parts.append(dict(switch="s_nc", seq="RRRR", sym_logical=True, sym_entry=True))
+        parts.append(dict(switch="s_no", seq="RRRR", sym_entry=True))
     else:
         parts += [dict(switch=sw, seq=q, same_state=True) for sw in ("s_no", "s_nc") for q in ("ABCRR", "ABRCR", "RABCR")]
         parts += [dict(switch=sw, seq=q, sym_logical=True) for sw in ("s_no", "s_nc") for q in ("RRRR", "RARR", "ARRD")]
+        parts += [dict(switch=sw, seq=q, sym_logical=True, sym_entry=True) for sw in ("s_no", "s_nc") for q in ("RRRRR", "RARRR")]
         parts += [dict(switch=sw, seq=q, same_state=True, same_hold=sh, remover=r, victims=[v for v in "ABC" if v != r])
                   for sw in ("s_no", "s_nc") for q in ("ABCR", "ABCRR") for sh in (True, False) for r in "AB"]
-    wparts = [dict(switch="s_timed_ev", n=3 if tier == "quick" else 4), dict(switch="s_win", n=3 if tier == "quick" else 4)]
+    wparts = [dict(switch="s_timed_ev", n=3 if tier == "quick" else 4), dict(switch="s_win", n=3 if tier == "quick" else 4), dict(switch="s_win_nc", n=3 if tier == "quick" else 4)]
     return [Scenario("timeline", setup, body, parts, teardown=teardown, part_budget=70 if tier == "quick" else 300, per_path_timeout=30),
             Scenario("configured_events", setup, body_window, wparts, teardown=teardown, part_budget=70 if tier == "quick" else 300, per_path_timeout=30)]
